@@ -868,6 +868,23 @@ func (c check) Run(w *harness.W, b harness.Batch) {
 				}
 			}
 		}
+		// wider images against every box width (rounding of the scaled
+		// size shows from 25 pixels on)
+		for iw := 21; iw <= 96; iw++ {
+			for _, ih := range []int{1, 2, 7, 20, 48} {
+				for bw := 1; bw <= 12; bw++ {
+					for _, bh := range []int{1, 3, 12} {
+						k++
+						if k%s.Of != s.Part {
+							continue
+						}
+						for _, proto := range []string{"half", "full"} {
+							runFit(w, sess, fitCase{Proto: proto, IW: iw, IH: ih, BW: bw, BH: bh, CellPW: 1, CellPH: 2}, false)
+						}
+					}
+				}
+			}
+		}
 	case "fit-pixel":
 		g := geometries[s.Part%len(geometries)]
 		padW, padH = (s.Part*11)%40, (s.Part*3)%16
